@@ -51,7 +51,10 @@ def module_container_sizes():
     return out
 
 
-def render_once(prog, classes, w, budget, fault_at=None, exc_kind=0, keep_refs=None):
+REUSE_RESULT = [None]
+
+
+def render_once(prog, classes, w, budget, fault_at=None, exc_kind=0, keep_refs=None, reuse_after_failure=False):
     """One top-level render with a fresh Context. Returns (result tuple, weakrefs).
     Pages that are a single component tag with text-only fills (py_entry) go through Component.render(kwargs, slots)
     with every fill passed as a Python slot function - the remaining kind of user callback named by the statement."""
@@ -94,6 +97,16 @@ def render_once(prog, classes, w, budget, fault_at=None, exc_kind=0, keep_refs=N
         res = ("err", type(e).__name__, str(e), e)
     # the variable layers of the caller's Context must be as the caller left them, whether the render returned or raised
     layers_after = [(id(d), dict(d)) for d in ctx.dicts]
+    REUSE_RESULT[0] = None
+    if reuse_after_failure and res[0] == "err" and not prog.get("py_entry"):
+        # the caller catches the exception and renders again with the SAME Context object (a fallback page, a retry)
+        w.main.fault_at = None
+        w.main.fault_site = None
+        try:
+            with R.StepBudget(budget):
+                REUSE_RESULT[0] = ("ok", R.normalise(str(Template(src).render(ctx))))
+        except BaseException as e2:
+            REUSE_RESULT[0] = ("err", type(e2).__name__, str(e2)[:200])
     LAST_CTX_PROBLEM[0] = None
     if layers_after != layers_before:
         LAST_CTX_PROBLEM[0] = f"{len(layers_before)} layers before, {len(layers_after)} after; extra keys: " \
@@ -204,7 +217,7 @@ def run(ch, params, decoded=False):
             exc_kind = ch.draw(len(world.exc_kinds()), "exc_kind")
             kind_name = world.exc_kinds()[exc_kind][0]
             before = world.registries()
-            res, refs = render_once(prog, classes, w, budget, fault_at=fi, exc_kind=exc_kind)
+            res, refs = render_once(prog, classes, w, budget, fault_at=fi, exc_kind=exc_kind, reuse_after_failure=True)
             fired = w.main.fired
             site = fired[1] if fired else None
             extra = {"fault_at": fi, "site": site, "exception": kind_name}
@@ -253,6 +266,13 @@ def run(ch, params, decoded=False):
             w.main.fired = None
             if violations:
                 break
+            if REUSE_RESULT[0] is not None and tuple(REUSE_RESULT[0][:2]) != tuple(pristine[:2]):
+                violate("REUSE", ["same-context-after-failure"],
+                        dict(extra, what="rendering again with the Context object that a failed render was given does not "
+                                         "give the pristine result", pristine=list(pristine), now=list(REUSE_RESULT[0])))
+                break
+            if REUSE_RESULT[0] is not None:
+                stats["probe:context_reused_after_failure"] = stats.get("probe:context_reused_after_failure", 0) + 1
             if LAST_CTX_PROBLEM[0]:
                 violate("CALLER-CONTEXT", ["failing-render"], dict(extra, what="the caller's Context was left modified by the failed render: " + LAST_CTX_PROBLEM[0]))
                 break
